@@ -141,6 +141,16 @@ pub enum Kept {
     Shm(u64, usize),
 }
 
+pub fn att_kinds(a: &[Att]) -> String {
+    a.iter()
+        .map(|x| match x {
+            Att::Tx(_) => 'T',
+            Att::Rx(_) => 'R',
+            Att::Shm(_) => 'M',
+        })
+        .collect()
+}
+
 pub fn make_atts(r: &mut Rng, n: usize, nonce: &mut u64) -> (Vec<Att>, Vec<Kept>) {
     let mut a = Vec::new();
     let mut k = Vec::new();
@@ -243,9 +253,10 @@ pub fn run_case(ctx: &Ctx, case: u64) {
             let n = r.below(6) as usize;
             let j = r.below(n as u64 + 1) as usize;
             let (atts, kept) = make_atts(&mut r, n, &mut nonce);
+            let kinds = att_kinds(&atts);
             let (tx, rx) = must("channel", ipc::channel::<Failing>());
             let res = tx.send(Failing { atts, fail_after: j, mode: kind });
-            desc = json!({"kind": if kind == 0 {"serialisation-fails(custom)"} else {"serialisation-fails(bincode)"}, "attachments": n, "fails_after": j});
+            desc = json!({"kind": if kind == 0 {"serialisation-fails(custom)"} else {"serialisation-fails(bincode)"}, "attachments": kinds, "fails_after": j});
             if res.is_ok() {
                 problems.push(("failing-value-was-sent".into(), json!({})));
             }
@@ -258,10 +269,11 @@ pub fn run_case(ctx: &Ctx, case: u64) {
             // the OS rejects the transmission (receiver closed)
             let n = r.below(6) as usize;
             let (atts, kept) = make_atts(&mut r, n, &mut nonce);
+            let kinds = att_kinds(&atts);
             let (tx, rx) = must("channel", ipc::channel::<Plain>());
             drop(rx);
             let res = tx.send(Plain { tag: 1, atts });
-            desc = json!({"kind": "os-rejects-transmission", "attachments": n});
+            desc = json!({"kind": "os-rejects-transmission", "attachments": kinds});
             if res.is_ok() {
                 problems.push(("send-to-closed-receiver-succeeded".into(), json!({})));
             }
@@ -284,11 +296,13 @@ pub fn run_case(ctx: &Ctx, case: u64) {
             }
             let mut inner: Option<Nest> = None;
             let mut fail_kept: Vec<Kept> = Vec::new();
+            let mut level_kinds: Vec<String> = Vec::new();
             for level in (0..=depth).rev() {
                 let nb = r.below(3) as usize;
                 let na = r.below(3) as usize;
                 let (before, kb) = make_atts(&mut r, nb, &mut nonce);
                 let (after, ka) = make_atts(&mut r, na, &mut nonce);
+                level_kinds.push(format!("{}|{}", att_kinds(&before), att_kinds(&after)));
                 nonce += 1;
                 let mut fail_inside = None;
                 if level == depth && fail_mode == 1 {
@@ -306,7 +320,7 @@ pub fn run_case(ctx: &Ctx, case: u64) {
             let res = chans[0].0.send(outer);
             let fname = ["none", "serialisation", "receiver-closed"][fail_mode as usize];
             desc = json!({"kind": if kind == 3 {"nested-send"} else {"nested-send-that-fails"}, "depth": depth,
-                "inner_failure": fname, "propagate": propagate});
+                "inner_failure": fname, "propagate": propagate, "attachments_per_level(before|after)": level_kinds});
             // which levels must have arrived?
             // level `depth` fails (fail_mode != 0); with propagate every enclosing level fails too
             for level in 0..=depth {
@@ -355,13 +369,14 @@ pub fn run_case(ctx: &Ctx, case: u64) {
             let (nb, na) = (r.below(3) as usize, r.below(3) as usize);
             let (before, kb) = make_atts(&mut r, nb, &mut nonce);
             let (after, ka) = make_atts(&mut r, na, &mut nonce);
+            let shape5 = format!("{}<{}>{}", att_kinds(&before), att_kinds(&iatts), att_kinds(&after));
             itx.send(Plain { tag: 4242, atts: iatts }).expect("inner send");
             otx.send(Nest { tag: 7, before, send_inside: None, fail_inside: None, recv_inside: Some(RecvInside), after }).expect("outer send");
             NESTED_RX.with(|x| *x.borrow_mut() = Some(irx));
             NESTED_GOT.with(|g| g.borrow_mut().clear());
             let got = orx.try_recv();
             NESTED_RX.with(|x| *x.borrow_mut() = None);
-            desc = json!({"kind": "receive-inside-deserialisation", "inner_attachments": ni, "before": nb, "after": na});
+            desc = json!({"kind": "receive-inside-deserialisation", "inner_attachments": ni, "before": nb, "after": na, "shape": shape5});
             match got {
                 Ok(m) => {
                     probe(m.before, &kb, &mut nonce, "outer:before", &mut problems);
@@ -421,7 +436,9 @@ pub fn run(ctx: &Ctx) {
         if !ctx.want(case) {
             continue;
         }
+        let _g = op_begin("failed-or-nested-send", case);
         let r = std::panic::catch_unwind(std::panic::AssertUnwindSafe(|| run_case(ctx, case)));
+        drop(_g);
         if r.is_err() {
             let p = take_panics();
             let at = p.last().cloned().unwrap_or_default();
